@@ -229,7 +229,23 @@ def run_impl(cases, backend='s1', workdir=None, flags=(), tag='cases'):
     os.makedirs(workdir, exist_ok=True)
     inp = os.path.join(workdir, tag + '.txt')
     write_cases(inp, cases)
-    p = subprocess.run([HARNESS[backend], inp] + list(flags), stdout=subprocess.PIPE, stderr=subprocess.PIPE, timeout=3600)
+    def harness(path, n):
+        # an expansion that never returns is a violation like one that dies: the watchdog kills the process and the culprit is found
+        # the same way (the case with a RAW line and no OUT line)
+        limit = max(240, int(0.05 * n))
+        pr = subprocess.Popen([HARNESS[backend], path] + list(flags), stdout=subprocess.PIPE, stderr=subprocess.PIPE)
+        try:
+            so, se = pr.communicate(timeout=limit)
+            return pr.returncode, so, se
+        except subprocess.TimeoutExpired:
+            pr.kill()
+            so, se = pr.communicate()
+            return -999, so, ('no outcome after %d s: the expansion does not terminate' % limit).encode()
+
+    class _P:
+        pass
+    p = _P()
+    p.returncode, p.stdout, p.stderr = harness(inp, len(cases))
     out = p.stdout.decode(errors='surrogateescape')
     crashes = 0
     todo = list(cases)
@@ -256,13 +272,15 @@ def run_impl(cases, backend='s1', workdir=None, flags=(), tag='cases'):
         head = out[:idx] if idx >= 0 else out
         partial = parse_lines(out[idx:]) .get(cid, {}) if idx >= 0 else {}
         rec = 'CASE %s\n' % cid + ''.join('%s %s\n' % (k, v) for k, v in partial.items() if k != 'OUT')
-        rec += 'OUT (panic "process died (rc=%s): %s")\n' % (p.returncode, why)
+        rec += 'OUT (panic "process %s: %s")\n' % ('hung' if p.returncode == -999 else 'died (rc=%s)' % p.returncode, why)
         out = head + rec
         todo = todo[culprit + 1:]
         if not todo or crashes >= 12:
             break          # enough culprits: the rest of this set is left unexpanded (records without an outcome are skipped)
+        if p.returncode == -999 and crashes >= 2:
+            break          # every hang costs the whole watchdog interval
         write_cases(inp + '.rest', todo)
-        p = subprocess.run([HARNESS[backend], inp + '.rest'] + list(flags), stdout=subprocess.PIPE, stderr=subprocess.PIPE, timeout=3600)
+        p.returncode, p.stdout, p.stderr = harness(inp + '.rest', len(todo))
         out += p.stdout.decode(errors='surrogateescape')
     with open(os.path.join(workdir, tag + '.' + backend + '.out'), 'w', errors='surrogateescape') as f:
         f.write(out)
